@@ -303,13 +303,15 @@ pub fn run_c08(tier: Tier, replay_path: Option<String>) -> i32 {
         "C08",
         tier,
         "exploration",
-        "every op sequence up to the depth bound over {put t (unique word per document), put e (with embedding), put T (chunked), update with new text, metadata-only update, update with a new embedding, delete, commit, close+open}, from a fresh file and after a commit; after every commit/open the read battery: search for every word ever stored (with and without the sketch pre-filter), ask(context_only, lexical), search_vec / vec_search_with_embedding / search_adaptive with each stored embedding, timeline, frame_by_uri for every uri; oracle: no hit, citation, fragment or timeline entry names an inactive frame, an un-chunked document's old unique word is found only in frames that still carry it, frame_by_uri returns the newest active version, the old version records its successor, unspecified fields are inherited; non-trivial = history with >= 1 delete or update; distinct = distinct histories",
+        "every op sequence up to the depth bound over {put t (unique word per document), put d (the same without an explicit uri, so the frame gets the default uri), put e (with embedding), put T (chunked), update with new text, metadata-only update, update with a new embedding, delete, commit, close+open}, from a fresh file and after a commit; after every commit/open the read battery: search for every word ever stored (with and without the sketch pre-filter), ask(context_only, lexical), search_vec / vec_search_with_embedding / search_adaptive with each stored embedding, timeline, frame_by_uri for every uri; oracle: no hit, citation, fragment or timeline entry names an inactive frame, an un-chunked document's old unique word is found only in frames that still carry it, frame_by_uri returns the newest active version, the old version records its successor, unspecified fields are inherited; non-trivial = history with >= 1 delete or update; distinct = distinct histories",
     );
     let alphabet = s(&["put:t", "put:e", "put:T", "upd:0:new", "upd:0:meta", "upd:1:emb", "del:0", "del:1", "commit", "reopen"]);
     let mk = |label: &str, alphabet: &Vec<String>, depth: usize, prefix: &[&str], instant: bool| HistPlan { label: label.into(), prop: "C08", alphabet: alphabet.clone(), max_depth: depth, prefix: s(prefix), instant, worker_kind: "hist", extra: json!({}), keep: Some(c08_owns), exe: None, timeout_s: 120 };
     let plans = match tier {
-        Tier::Quick => vec![mk("after-commit", &alphabet, 2, &["put:t", "put:e", "put:t", "commit"], false), mk("after-commit-instant", &s(&["upd:0:new", "del:0", "commit", "reopen"]), 2, &["put:t", "put:e", "commit"], true)],
-        Tier::Thorough => vec![mk("fresh", &alphabet, 4, &[], false), mk("after-commit", &alphabet, 3, &["put:t", "put:e", "put:t", "commit"], false), mk("after-commit-instant", &alphabet, 3, &["put:t", "put:e", "commit"], true), mk("after-chunked", &alphabet, 2, &["put:T", "put:t", "commit"], false)],
+        // "default-uri": the documents carry no explicit uri (put kind d), so versions of one
+        // document share `mv2://frames/<id of the first version>`
+        Tier::Quick => vec![mk("after-commit", &alphabet, 2, &["put:t", "put:e", "put:t", "commit"], false), mk("after-commit-instant", &s(&["upd:0:new", "del:0", "commit", "reopen"]), 2, &["put:t", "put:e", "commit"], true), mk("default-uri", &s(&["put:d", "upd:0:new", "upd:0:meta", "del:0", "del:1", "commit", "reopen"]), 2, &["put:d", "put:d", "commit"], false)],
+        Tier::Thorough => vec![mk("fresh", &alphabet, 4, &[], false), mk("after-commit", &alphabet, 3, &["put:t", "put:e", "put:t", "commit"], false), mk("after-commit-instant", &alphabet, 3, &["put:t", "put:e", "commit"], true), mk("after-chunked", &alphabet, 2, &["put:T", "put:t", "commit"], false), mk("default-uri", &s(&["put:d", "upd:0:new", "upd:0:meta", "upd:1:emb", "del:0", "del:1", "commit", "reopen"]), 4, &["put:d", "put:d", "commit"], false)],
     };
     let mut summary = Vec::new();
     for p in &plans {
